@@ -190,6 +190,106 @@ type MutTagB struct {
 	X *MutTagA `plenc:"2,other"`
 }
 
+// values whose interface data word is the value itself (pointer-shaped structs, at
+// every wrapping depth), next to pointer-sized values that are boxed
+type Wrap1 struct {
+	P *Inner `plenc:"1"`
+}
+type Wrap2 struct {
+	W Wrap1 `plenc:"1"`
+}
+type Wrap3 struct {
+	W Wrap2 `plenc:"3"`
+}
+type WrapRec struct {
+	R WrapRec1 `plenc:"2"`
+}
+type WrapRec1 struct {
+	N *Rec `plenc:"1"`
+}
+type WrapM struct {
+	M map[string]int `plenc:"1"`
+}
+type WrapM2 struct {
+	W WrapM `plenc:"2"`
+}
+type WrapI struct {
+	A int `plenc:"1"`
+}
+type WrapI2 struct {
+	W WrapI `plenc:"1"`
+}
+type WrapPP struct {
+	P **int `plenc:"1"`
+}
+
+var catalogueWrap = []reflect.Type{
+	reflect.TypeOf(Wrap1{}), reflect.TypeOf(Wrap2{}), reflect.TypeOf(Wrap3{}), reflect.TypeOf(WrapRec{}), reflect.TypeOf(WrapRec1{}),
+	reflect.TypeOf(WrapM{}), reflect.TypeOf(WrapM2{}), reflect.TypeOf(WrapI{}), reflect.TypeOf(WrapI2{}), reflect.TypeOf(WrapPP{}),
+}
+
+// invalid definitions inside (mutual) recursion: whichever type of a family is asked
+// for, in whatever order, on one instance, the answer is an error
+type BadOutA struct {
+	Items []BadInA `plenc:"1"`
+	X     int      // exported, untagged, after the reference
+}
+type BadInA struct {
+	Owner *BadOutA `plenc:"1"`
+	V     int      `plenc:"2"`
+}
+type BadOutB struct {
+	Items map[string]BadInB `plenc:"1"`
+	A     int               `plenc:"2"`
+	B     int               `plenc:"2"` // duplicate index
+}
+type BadInB struct {
+	Owner *BadOutB `plenc:"1"`
+	A     int      `plenc:"2"`
+	B     int      `plenc:"3"`
+}
+type BadOutC struct {
+	P *BadInC   `plenc:"1"`
+	Z complex64 `plenc:"2"` // unsupported kind
+}
+type BadInC struct {
+	Up []BadOutC `plenc:"1"`
+	V  string    `plenc:"2"`
+}
+type BadOutD struct {
+	Z chan int `plenc:"1"` // the bad field first
+	P *BadInD  `plenc:"2"`
+}
+type BadInD struct {
+	Up *BadOutD `plenc:"1"`
+	W  []BadInD `plenc:"2"`
+}
+type BadSelf struct {
+	Next *BadSelf  `plenc:"1"`
+	Kids []BadSelf `plenc:"2"`
+	X    int       `plenc:"x"` // unparsable index
+}
+type BadMidA struct {
+	B *BadMidB `plenc:"1"`
+}
+type BadMidB struct {
+	C []BadMidC `plenc:"1"`
+	A *BadMidA  `plenc:"2"`
+}
+type BadMidC struct {
+	A *BadMidA `plenc:"1"`
+	Q int      `plenc:"-1"` // negative index
+}
+
+var badFamilies = [][]reflect.Type{
+	{reflect.TypeOf(BadOutA{}), reflect.TypeOf(BadInA{})},
+	{reflect.TypeOf(BadOutB{}), reflect.TypeOf(BadInB{})},
+	{reflect.TypeOf(BadOutC{}), reflect.TypeOf(BadInC{})},
+	{reflect.TypeOf(BadOutD{}), reflect.TypeOf(BadInD{})},
+	{reflect.TypeOf(BadSelf{}), reflect.TypeOf([]BadSelf{}), reflect.TypeOf(&BadSelf{})},
+	{reflect.TypeOf(BadMidA{}), reflect.TypeOf(BadMidB{}), reflect.TypeOf(BadMidC{})},
+}
+
 var catalogue = []reflect.Type{
 	reflect.TypeOf(Rec{}), reflect.TypeOf(RecMap{}), reflect.TypeOf(MutA{}), reflect.TypeOf(MutB{}),
 	reflect.TypeOf(Unexp{}), reflect.TypeOf(Named{}), reflect.TypeOf(Times{}), reflect.TypeOf(Ptrs{}),
